@@ -139,6 +139,11 @@ def TCall(trait, m, *args, form="ufcs"):
     return {"k": "tcall", "trait": trait, "m": m, "as": list(args), "form": form}
 
 
+def Derived(m, e, form="method"):
+    """e.to_string() / e.to_json() of a type with #[derive(..)]; form 'ufcs' renders T::m(e)"""
+    return {"k": "derived", "m": m, "as": [e], "form": form}
+
+
 def ToDyn(trait, e):
     return {"k": "todyn", "trait": trait, "e": e}
 
@@ -296,7 +301,20 @@ class Program:
                 impls.setdefault(k, {}).update(v)
         if need_main and "main" not in fns:
             raise ValueError("program without main")
-        return {"name": self.name, "fns": fns, "impls": impls}
+        ftab = {"·": []}
+        ntab = {"·": []}
+        def nm(x):
+            ntab[x] = list(x.encode("utf-8"))
+        for name, gens, fields, derives in self.structs:
+            ftab[name] = [f for f, _ in fields]
+            nm(name)
+            for f, _ in fields:
+                nm(f)
+        for name, gens, variants, derives in self.enums:
+            nm(name)
+            for v, _ in variants:
+                nm(v)
+        return {"name": self.name, "fns": fns, "impls": impls, "ftab": ftab, "ntab": ntab}
 
     # ---- goml text
     def render(self):
@@ -340,7 +358,7 @@ def sem_expr(e):
     if isinstance(e, dict):
         out = {}
         for k, v in e.items():
-            if k in ("suffix", "qualified", "form", "pts", "q"):
+            if k in ("suffix", "qualified", "form", "pts", "q", "tyname"):
                 continue
             if k == "ty" and isinstance(v, list):     # let annotation
                 continue
@@ -357,22 +375,25 @@ def sem_expr(e):
 ESC = {34: '\\"', 92: "\\\\", 10: "\\n", 9: "\\t", 13: "\\r"}
 
 
-def render_str(bs):
+def needs_multiline(b):
+    return any(x in (34, 92) or x < 32 for x in b)
+
+
+def render_str(bs, ind=0):
     out = []
     b = bytes(bs)
     try:
         s = b.decode("utf-8")
     except UnicodeDecodeError:
         raise ValueError("string literal is not UTF-8")
-    for ch in s:
-        o = ord(ch)
-        if o in ESC:
-            out.append(ESC[o])
-        elif o < 32:
-            out.append("\\u%04x" % o)
-        else:
-            out.append(ch)
-    return '"' + "".join(out) + '"'
+    if needs_multiline(b):
+        # escapes are not denotable reliably (see C11); a multi-line string literal carries every byte verbatim, but needs a line feed
+        if 10 not in b or 13 in b:
+            raise ValueError("string with quote/backslash/control characters but without a line feed cannot be written")
+        pad = "    " * (ind + 2)
+        lines = s.split("\n")
+        return ("\n" + pad).join("\\\\" + ln for ln in lines) + "\n" + pad
+    return '"' + s + '"'
 
 
 def render_int(e):
@@ -442,7 +463,7 @@ def R(e, ind=0):
     if k == "bool":
         return "true" if e["v"] else "false"
     if k == "str":
-        return render_str(e["v"])
+        return render_str(e["v"], ind)
     if k == "unit":
         return "()"
     if k == "var":
@@ -465,6 +486,10 @@ def R(e, ind=0):
         if e.get("form") == "method":
             return atom(e["as"][0], ind) + "." + e["m"] + "(" + ", ".join(R(a, ind) for a in e["as"][1:]) + ")"
         return e["trait"] + "::" + e["m"] + "(" + ", ".join(R(a, ind) for a in e["as"]) + ")"
+    if k == "derived":
+        if e.get("form") == "ufcs":
+            return e["tyname"] + "::" + e["m"] + "(" + R(e["as"][0], ind) + ")"
+        return atom(e["as"][0], ind) + "." + e["m"] + "()"
     if k == "callv":
         return atom(e["f"], ind) + "(" + ", ".join(R(a, ind) for a in e["as"]) + ")"
     if k == "todyn":
